@@ -375,6 +375,7 @@ type acase struct {
 	S1b    stmt    `json:"S1b"`
 	Two    int     `json:"two"`
 	Host   string  `json:"host"`
+	Re     int     `json:"re"`
 	Cs     []entry `json:"cs"`
 	Cs2    []entry `json:"cs2"`
 	W      int     `json:"W"`
@@ -792,7 +793,36 @@ func runAttach(w *world, res *hx.Result, c *acase, raw json.RawMessage, cred1 *g
 			seen = append(seen, objs...)
 		}
 	}
-	if len(subs) == 1 {
+	if len(subs) == 1 && c.Re != 0 {
+		// the verifier's ProofD object has verified the honest proof before; then the manipulated proof arrives in the
+		// same object: altered in place (re = 1) or decoded from JSON into the same variable (re = 2)
+		manip := subs[0].pd
+		prep := func() *gabi.ProofD {
+			obj := cpFull(host1)
+			if !obj.Verify(pk, w.context, nonce, false) {
+				res.Violation("honest-rejected", "honest proof does not verify (before "+c.Op+")", detail)
+			}
+			var bts []byte
+			var err error
+			if c.Re == 2 {
+				bts, err = json.Marshal(manip)
+			}
+			if c.Re == 2 && err == nil {
+				if err := json.Unmarshal(bts, obj); err != nil {
+					hx.Fatal("decode into the used object: %v", err)
+				}
+			} else {
+				m := cpFull(manip)
+				obj.RangeProofs = m.RangeProofs
+			}
+			return obj
+		}
+		o1, o2 := prep(), prep()
+		run("ProofD.Verify(reused object)", []subject{{o1, subs[0].vals}}, func() bool { return o1.Verify(pk, w.context, nonce, false) })
+		run("ProofList.Verify(reused object)", []subject{{o2, subs[0].vals}}, func() bool {
+			return gabi.ProofList{o2}.Verify([]*gabikeys.PublicKey{pk}, w.context, nonce, false, nil)
+		})
+	} else if len(subs) == 1 {
 		mem := subs[0].pd
 		jp := viaJSON(mem)
 		run("ProofD.Verify", subs, func() bool { return mem.Verify(pk, w.context, nonce, false) })
@@ -813,7 +843,7 @@ func runAttach(w *world, res *hx.Result, c *acase, raw json.RawMessage, cred1 *g
 		}
 	}
 	nt := ""
-	if c.Expect != "accept" || (c.Op != "honest" && c.Op != "honest2" && c.Op != "list-honest") {
+	if c.Expect != "accept" || (c.Op != "honest" && c.Op != "honest2" && c.Op != "list-honest" && c.Op != "reverify-honest") {
 		nt = string(raw)
 	}
 	res.Eval(nt)
